@@ -226,8 +226,11 @@ impl Model {
     pub fn bind_run_is_current(&self, b: Hid, g: u32) -> bool {
         self.nodes.get(b).map_or(false, |n| !n.invalid && n.gen == Some(g))
     }
+    /// Invalid for the model *and* reported invalid by the engine (a bind dropped by its only
+    /// dependant in the round in which its input became invalid is invalidated lazily by the
+    /// engine, and so are its nodes: those do not count).
     pub fn is_invalid(&self, h: Hid) -> bool {
-        self.nodes.get(h).map_or(false, |n| n.invalid)
+        self.nodes.get(h).map_or(false, |n| n.invalid && n.engine_invalid)
     }
     pub fn rounds_started(&self) -> u32 {
         self.rounds_started
